@@ -25,6 +25,18 @@ NAMES = EXT.NAMES
 
 
 def gen(rng, tier):
+    # intersections / unions of operands that yield EQUAL values spelled differently: objects with their members in another
+    # order (also nested in arrays), look-alike scalars, repeated values
+    sdoc = {"a": [{"x": 1, "y": 2}, [5, {"p": 1, "q": 2}], 7, 1, True, "1", [], {}, None, 1.0, [1, 2], {"k": {"u": 1, "v": [2, {"m": 1, "n": 2}]}}],
+            "b": [[5, {"q": 2, "p": 1}], {"y": 2, "x": 1}, 7, True, 1, [], {}, 0, False, [2, 1], {"k": {"v": [2, {"n": 2, "m": 1}], "u": 1}}, "1"]}
+
+    def w(name):
+        return {"fake": False, "segs": [["list", ["name", name]], ["sel", "wild"]]}
+    for first, rest in ((w("a"), [["inter", w("b")]]), (w("b"), [["inter", w("a")]]), (w("a"), [["union", w("b")], ["inter", w("b")]]),
+                        (w("a"), [["inter", w("a")]]), (w("a"), [["inter", w("b")], ["inter", w("a")]]),
+                        ({"fake": False, "segs": ["desc", ["sel", "wild"]]}, [["inter", w("b")]])):
+        for std in (True, False):
+            yield {"query": {"first": first, "rest": rest}, "doc": sdoc, "ctx": Q.CTX, "seed": 5, "std": std, "implicit_root": False}
     n = 5000 if tier == "thorough" else 600
     for _ in range(n):
         doc = gen_container(rng, 3, 3, NAMES)
